@@ -709,6 +709,27 @@ struct Probes {
     vals: Vec<u32>,
     after: Vec<u32>,
     pairs: Vec<(u32, u32)>,
+    /// which observation kinds to make (bit per kind); u32::MAX = all
+    mask: u32,
+}
+fn keep(mask: u32, ob: &Ob) -> bool {
+    let bit = match ob {
+        Ob::Len(..) => 0,
+        Ob::Inverted(..) => 1,
+        Ob::Contains(..) => 2,
+        Ob::First(..) => 3,
+        Ob::Last(..) => 4,
+        Ob::Iter(..) => 5,
+        Ob::IterBack(..) => 6,
+        Ob::IterAfter(..) => 7,
+        Ob::Ranges(..) => 8,
+        Ob::ExclRanges(..) => 9,
+        Ob::IntersectsRange(..) => 10,
+        Ob::IntersectsSet(..) => 11,
+        Ob::Eq(..) => 12,
+        Ob::Cmp(..) => 13,
+    };
+    mask & (1 << bit) != 0
 }
 
 fn observe_impl<E: Elem>(st: &[IntSet<E>; 2], pr: &Probes) -> Vec<Ob> {
@@ -741,6 +762,7 @@ fn observe_impl<E: Elem>(st: &[IntSet<E>; 2], pr: &Probes) -> Vec<Ob> {
     }
     out.push(Ob::Eq(st[0] == st[1]));
     out.push(Ob::Cmp(ord_i8(st[0].cmp(&st[1]))));
+    out.retain(|o| keep(pr.mask, o));
     out
 }
 
@@ -772,6 +794,7 @@ fn observe_sh<E: Elem>(st: &[Sh; 2], pr: &Probes) -> Vec<Ob> {
     }
     out.push(Ob::Eq(Sh::eq::<E>(&st[0], &st[1])));
     out.push(Ob::Cmp(ord_i8(Sh::cmp::<E>(&st[0], &st[1]))));
+    out.retain(|o| keep(pr.mask, o));
     out
 }
 
@@ -912,8 +935,42 @@ fn extra_oracles<E: Elem>(st: &[IntSet<E>; 2], sh: &[Sh; 2], rng: &mut Rng, full
 // ---------------------------------------------------------------------------------------------
 struct Ctx {
     st: Stats,
-    cw: CaseWriter,
+    cw: Cases,
     coq_budget: usize,
+}
+/// case terms, written at the end as byte-balanced shards in CaseWriter's file format
+struct Cases(Vec<String>);
+impl Cases {
+    fn push(&mut self, s: String) {
+        self.0.push(s)
+    }
+    fn len(&self) -> usize {
+        self.0.len()
+    }
+    fn finish(&self, dir: &std::path::Path, header: &str, nshards: usize) -> usize {
+        let mut order: Vec<usize> = (0..self.0.len()).collect();
+        order.sort_by_key(|i| std::cmp::Reverse(self.0[*i].len()));
+        let n = nshards.min(self.0.len()).max(1);
+        let mut buckets: Vec<(usize, Vec<usize>)> = vec![(0, vec![]); n];
+        for i in order {
+            let b = buckets.iter_mut().min_by_key(|b| b.0).unwrap();
+            b.0 += self.0[i].len() + 2000;
+            b.1.push(i);
+        }
+        for (k, (_, idx)) in buckets.iter().enumerate() {
+            let mut s = String::new();
+            s.push_str(header);
+            s.push_str("\nDefinition cases : list (case) := [\n");
+            for (j, i) in idx.iter().enumerate() {
+                s.push_str("  ");
+                s.push_str(&self.0[*i]);
+                s.push_str(if j + 1 < idx.len() { ";\n" } else { "\n" });
+            }
+            s.push_str("].\nEval vm_compute in (FV.Lib.Cases.bad_indices (check_case) cases).\n");
+            std::fs::write(dir.join(format!("cases_{}.v", k)), s).unwrap();
+        }
+        n
+    }
 }
 
 fn probes_for<E: Elem>(op: &Op, rng: &mut Rng, pool: &[u32]) -> Probes {
@@ -952,7 +1009,7 @@ fn probes_for<E: Elem>(op: &Op, rng: &mut Rng, pool: &[u32]) -> Probes {
         let b = *rng.pick(&vals);
         pairs.push(if rng.chance(5, 6) { (a.min(b), a.max(b)) } else { (a, b) });
     }
-    Probes { vals, after, pairs }
+    Probes { vals, after, pairs, mask: u32::MAX }
 }
 
 fn key_of(dom: &str, ops: &[Op]) -> String {
@@ -1006,7 +1063,12 @@ fn run_sequence<E: Elem>(cx: &mut Ctx, rng: &mut Rng, ops: &[Op], pool: &[u32], 
         let last = i + 1 == ops.len();
         let mut obs_txt = String::from("[]");
         if every || last {
-            let pr = probes_for::<E>(op, rng, pool);
+            let mut pr = probes_for::<E>(op, rng, pool);
+            if to_coq && !last {
+                // keep the Coq case small: a random third of the observation kinds on inner steps
+                pr.mask = (rng.next_u32() & rng.next_u32()) | (1 << (rng.below(14) as u32));
+                pr.vals.truncate(5);
+            }
             let stc = st.clone();
             let oi = catch(std::panic::AssertUnwindSafe(|| observe_impl::<E>(&stc, &pr)));
             let os = observe_sh::<E>(&sh, &pr);
@@ -1160,6 +1222,7 @@ fn rand_op<E: Elem>(rng: &mut Rng, pool: &[u32], max_span: u32) -> Op {
                     }
                 }
             };
+            let span = span.min(max_span);
             let mut b = a.saturating_add(span).min(E::dmax());
             if !E::has(b) {
                 b = E::pred(b).unwrap();
@@ -1195,6 +1258,8 @@ fn rand_op<E: Elem>(rng: &mut Rng, pool: &[u32], max_span: u32) -> Op {
 
 fn random_stream<E: Elem>(cx: &mut Ctx, rng: &mut Rng, nseq: usize, maxlen: usize, coq_seqs: usize, pool: &[u32], max_span: u32, full_iter: bool) {
     for i in 0..nseq {
+        // sequences that also go to the Coq model stay small (vm_compute enumerates whole sets)
+        let (maxlen, max_span) = if i < coq_seqs { (maxlen.min(24), max_span.min(700)) } else { (maxlen, max_span) };
         let len = 1 + rng.below(maxlen as u64) as usize;
         let ops: Vec<Op> = (0..len).map(|_| rand_op::<E>(rng, pool, max_span)).collect();
         run_sequence::<E>(cx, rng, &ops, pool, true, i < coq_seqs, full_iter);
@@ -1333,14 +1398,10 @@ fn main() {
     let seed = seed_from_env();
     let dir = out_dir(&args, "C14");
     let mut rng = Rng::new(seed);
-    let cw = CaseWriter::new(
-        &dir,
-        "From Coq Require Import NArith List. Import ListNotations. Open Scope N_scope.\nFrom FV Require Import Lib.Cases C14.Model.",
-        "case",
-        "check_case",
-        if thorough { 500 } else { 420 },
-    );
-    let mut cx = Ctx { st: Stats::new(), cw, coq_budget: usize::MAX };
+    let header = "From Coq Require Import NArith List. Import ListNotations. Open Scope N_scope.\nFrom FV Require Import Lib.Cases C14.Model.";
+    // creates the directory and removes stale shards
+    let _ = CaseWriter::new(&dir, header, "case", "check_case", 1);
+    let mut cx = Ctx { st: Stats::new(), cw: Cases(vec![]), coq_budget: usize::MAX };
     let t0 = std::time::Instant::now();
     let lap = |what: &str| eprintln!("[c14] {:>7.2}s {}", t0.elapsed().as_secs_f64(), what);
 
@@ -1395,7 +1456,7 @@ fn main() {
     rangeset_stream(&mut cx, &mut rng, if thorough { 200_000 } else { 30_000 }, if thorough { 6000 } else { 1500 });
 
     lap("rangeset done");
-    let shards = cx.cw.finish();
+    let shards = cx.cw.finish(&dir, header, if thorough { 64 } else { 16 });
     cx.st.v.insert("shards".into(), shards.into());
     cx.st.v.insert("model_cases".into(), cx.cw.len().into());
     cx.st.write(
